@@ -4850,8 +4850,14 @@ EmitJmpCall:
 
       label = &_code->label_entry_of(label_id);
       if (label->is_bound_to(_section)) {
-        // Label bound to the current section.
-        rel32 = uint32_t((label->offset() - ip - inst32_size) & 0xFFFFFFFFu);
+        // Label bound to the current section. The displacement must fit into 32 bits (a section can be larger than
+        // 2 GiB); in 32-bit mode the address space wraps around so every target is reachable.
+        uint64_t rel64 = label->offset() - ip - inst32_size;
+        if (ASMJIT_UNLIKELY(!Environment::is_32bit(arch()) && !Support::is_int_n<32>(int64_t(rel64)))) {
+          goto InvalidDisplacement;
+        }
+
+        rel32 = uint32_t(rel64 & 0xFFFFFFFFu);
         goto EmitJmpCallRel;
       }
       else {
